@@ -700,21 +700,30 @@ DICT_FIELDS = {"AROON": ["AROONU", "AROOND", "AROONOSC"], "MACD": ["MACD", "sign
 TOUCHES = ["str", "repr", "name", "settings", "reading_period", "candles_sum"]
 
 
-def read_batch(rng, sc, names, kinds, lens_hint, hexobj, touches=True):
+def read_batch(rng, sc, names, kinds, lens_hint, hexobj, touches=True, span="full"):
+    """lens_hint: {indicator number: (length of its candle list, calculated up to the newest candle?)}
+    (or a plain length for all); span: 0 = no index arguments, 1 = indices -1 / 0 only, "full" =
+    indices range over the whole list"""
     from record import NOIDX
 
     rd = []
     for i, (nm, kind) in enumerate(zip(names, kinds)):
         fields = [""] + DICT_FIELDS.get(kind, [])
+        if isinstance(lens_hint, dict):
+            L, done = lens_hint.get(i, (1, False))
+        else:
+            L, done = lens_hint, True
+        if span != "full":
+            L = min(L, span)
         for _ in range(3):
             f = rng.choice(fields)
             full = nm + ("." + f if f else "")
-            L = lens_hint
             idx = rng.randrange(-L, L) if L else NOIDX
             rd.append(("ind.reading", i, full, rng.choice([idx, NOIDX])))
             if L:
                 rd.append(("ind.reading", i, full, idx % L))
                 rd.append(("ind.reading", i, full, (idx % L) - L))
+                rd.append(("ind.reading", i, full, -1))
                 rd.append(("ind.read_candle", i, full, idx))
             rd.append(("ind.prev_reading", i, full, NOIDX))
             rd.append(("ind.as_list", i, full, NOIDX))
@@ -726,7 +735,12 @@ def read_batch(rng, sc, names, kinds, lens_hint, hexobj, touches=True):
                 rd.append(("hex.reading_as_list", -1, full, NOIDX))
                 rd.append(("hex.has_reading", -1, full, NOIDX))
         rd.append(("ind.has_reading", i, "", NOIDX))
-        rd.append(("ind.reading", i, rng.choice(["close", "high", "volume"]), NOIDX))
+        # a candle field through the indicator: with an explicit index always; without one only once the
+        # indicator has been calculated (before that "the latest" is not something C20 speaks about)
+        if L:
+            rd.append(("ind.reading", i, rng.choice(["close", "high", "volume"]), rng.randrange(-L, L)))
+        if done:
+            rd.append(("ind.reading", i, rng.choice(["close", "high", "volume"]), NOIDX))
         if touches:
             for w in TOUCHES:
                 rd.append((w, i, "", NOIDX))
@@ -782,16 +796,68 @@ def fam_reads(rng, pid, count, forms=("candle",), touches=True):
               "twins": [], "member_forms": ["obj"] * len(cfgs), "single_unwrapped": rng.random() < 0.5,
               "clause_props": {"exc": [pid], "stage": ["C19"], "def": ["C19"], "sideeffect": ["C19"],
                                "attrs": ["C19"], "args": ["C19"], "read": ["C20"]}}
+        # the program is grown against a live shadow run: index arguments range over the whole of each
+        # indicator's own candle list as it is at that moment (the property: all in-range indices)
+        from record import Session
+        from streams import base_for
+
+        tfs = [c.timeframe for c in cfgs] + [hexcfg.get("timeframe")]
+        sh = Session(sc, base_for([x for x in tfs if x]))
+
+        def lens():
+            try:
+                out = {}
+                for i in range(len(cfgs)):
+                    ind = sh.indicator(i)
+                    cs = ind.candles
+                    # has the indicator been calculated up to the newest candle?  (public state only)
+                    done = bool(cs) and ind.name in cs[-1].indicators
+                    out[i] = (len(cs), done)
+                return out
+            except Exception:
+                return {}
+
+        def step(st_):
+            try:
+                sh.run(st_)
+                return True
+            except Exception:
+                return False
+
         prog = [("new", pre)]
-        if pre >= 1:     # index arguments must be in range: no reads on empty lists
-            prog.append(("reads", read_batch(rng, sc, names, kinds, 1 if rng.random() < 0.5 else 0, hexobj, touches)))
+        alive = step(prog[0])
+        L = lens() if alive else {}
+        if pre >= 1 and L and all(v[0] >= 1 for v in L.values()):     # no reads on empty lists
+            prog.append(("reads", read_batch(rng, sc, names, kinds, L, hexobj, touches,
+                                               span=rng.choice(["full", 0]))))
         a = pre
         for k in chunks:
             prog.append(("append", a + 1, a + k))
+            alive = alive and step(prog[-1])
             a += k
-            if rng.random() < 0.7:
-                # in-range indices for every list involved: the shortest list has >= 1 candle
-                prog.append(("reads", read_batch(rng, sc, names, kinds, 1, hexobj, touches)))
+            L = lens() if alive else {}
+            ok = bool(L) and all(v[0] >= 1 for v in L.values())
+            if ok and rng.random() < 0.3:
+                # a maintenance call that changes no reading (C14) aimed at an older candle: whatever
+                # cursor the library keeps, every way of asking must still mean the same candle
+                i = rng.randrange(len(cfgs))
+                n_i = L[i][0]
+                if n_i >= 2 and L[i][1]:
+                    pos = rng.randrange(0, n_i - 1)
+                    pos = pos if rng.random() < 0.6 else pos - n_i
+                    prog.append(("calculate_index", names[i] if hexobj else "", pos))
+                    alive = alive and step(prog[-1])
+                    if rng.random() < 0.3:
+                        prog.append(("calculate", names[i] if hexobj and rng.random() < 0.5 else ""))
+                        alive = alive and step(prog[-1])
+                    L = lens() if alive else {}
+                    ok = bool(L) and all(v[0] >= 1 for v in L.values())
+                    if ok:
+                        prog.append(("reads", read_batch(rng, sc, names, kinds, L, hexobj, touches)))
+                    continue
+            if ok and rng.random() < 0.7:
+                prog.append(("reads", read_batch(rng, sc, names, kinds, L, hexobj, touches,
+                                                   span=rng.choice(["full", "full", 1]))))
         sc["prog"] = prog
         out.append(sc)
     return out
@@ -975,9 +1041,16 @@ def _calls(rng, n, fns, idxs, lens, per=2):
 
 
 def _transform(stream, readings, mul, add):
-    st = [(t, o * mul + add, h * mul + add, l * mul + add, c * mul + add, v) for t, o, h, l, c, v in stream]
-    rd = [{k: (None if x is None else x * mul + add) for k, x in r.items()} for r in readings]
+    f = lambda x: round(x * mul + add, 10)      # decimal inputs stay short decimals
+    st = [(t, f(o), f(h), f(l), f(c), v) for t, o, h, l, c, v in stream]
+    rd = [{k: (None if x is None else f(x)) for k, x in r.items()} for r in readings]
     return st, rd
+
+
+# "no predicate changes when all prices are multiplied by a positive factor or shifted by a constant":
+# from sub-cent quotes to index levels
+SCALINGS = [(1, 0), (1, 0), (2, 0), (10, 0), (0.5, 0), (1, 100), (1, 1), (0.001, 0), (0.0001, 0), (0.00001, 0),
+            (1000, 0), (0.01, 0), (100, 7)]
 
 
 def fam_movement(rng, pid, count):
@@ -1236,7 +1309,7 @@ def fam_patterns(rng, pid, count):
             n = len(stream)
             focus = list(range(max(8, at - 1), n))
         readings = [{} for _ in range(n)]
-        mul, add = rng.choice([(1, 0), (1, 0), (2, 0), (10, 0), (0.5, 0), (1, 100), (1, 1)])
+        mul, add = rng.choice(SCALINGS)
         stream, readings = _transform(stream, readings, mul, add)
         rd = _calls(rng, n, PATS, focus, looks, per=2)
         rd += [("geo", i) for i in focus]
